@@ -179,7 +179,7 @@ class Sys:
                 self.track(q)
         except AttributeError:
             pass
-        e = Quantity._EMPTY_QUANTITY
+        e = getattr(Quantity, "_EMPTY_QUANTITY", None)
         if e is not None:
             self.track(e)
 
@@ -200,7 +200,7 @@ def canon(s):
     # quantities that are alive but not interned (direct constructor) cannot be reached by the
     # implementation again; they are judged at the step that creates them and on every later step
     # of the same history, but they do not distinguish states.
-    return (cache, Quantity._EMPTY_QUANTITY is not None)
+    return (cache, getattr(Quantity, "_EMPTY_QUANTITY", None) is not None)
 
 
 def apply(s, op, part, hist):
